@@ -110,7 +110,7 @@ func propC01(c *Check) {
 		edges := p.MatchEdges(h, regexp.MustCompile(verifyProposalOK))
 		avoid := map[edgeKey]bool{}
 		for _, e := range edges {
-			avoid[edgeKey{e.Block, e.Idx}] = true
+			avoid[e.Key()] = true
 		}
 		ws := p.writeSites(h)
 		bad := 0
@@ -170,7 +170,7 @@ func propC01(c *Check) {
 	args := av.Common().Args
 	r := p.R(vp)
 	keys := r.E(args[0])
-	wantKeys := `^φ\{append\(make\(\[\]\[\]byte,0,.*\), \[Voters\.Get\(Relayer\.Get\(\)#0\.Proposer\)#0\.VoteKey\]\)\|φ\{@\|append\(@, \[Voters\.Get\(Relayer\.GetVoters\(Relayer\.Get\(\)#0\)\[φ\{\(1 \+ @\)\|0\}\]\)#0\.VoteKey\]\)\}\}$`
+	wantKeys := `^φ\{append\(@, \[Voters\.Get\(Relayer\.GetVoters\(Relayer\.Get\(\)#0\)\[φ\{\(1 \+ @\)\|0\}\]\)#0\.VoteKey\]\)\|append\(make\(\[\]\[\]byte,0,.*\), \[Voters\.Get\(Relayer\.Get\(\)#0\.Proposer\)#0\.VoteKey\]\)\}$`
 	if regexp.MustCompile(wantKeys).MatchString(keys) {
 		c.Held("R3", "key-slice @ "+FuncKey(vp), p.InstrPos(av), "keys = [proposer.VoteKey] ++ [voters[i].VoteKey | marked i]")
 		c.Held("R5", "key-source @ "+FuncKey(vp), p.InstrPos(av), "every key is Voters.Get(<current relayer member>).VoteKey from the keeper's own store")
@@ -196,7 +196,7 @@ func propC01(c *Check) {
 	if edges := p.MatchEdges(vp, reTie); len(edges) > 0 {
 		avoid := map[edgeKey]bool{}
 		for _, e := range edges {
-			avoid[edgeKey{e.Block, e.Idx}] = true
+			avoid[e.Key()] = true
 		}
 		if t, _ := (&PathSearch{Fn: vp, AvoidEdges: avoid, IsTarget: successTargets(vp)}).Find(); t == nil {
 			tied, tiedDesc = true, "len(keys) == marks+1 on every success path"
@@ -208,7 +208,7 @@ func propC01(c *Check) {
 		if edges := p.MatchEdges(vp, reMax); len(edges) > 0 {
 			avoid := map[edgeKey]bool{}
 			for _, e := range edges {
-				avoid[edgeKey{e.Block, e.Idx}] = true
+				avoid[e.Key()] = true
 			}
 			if t, _ := (&PathSearch{Fn: vp, AvoidEdges: avoid, IsTarget: successTargets(vp)}).Find(); t == nil {
 				tied, tiedDesc = true, "highest mark bounded by len(voters)"
